@@ -143,6 +143,8 @@ def make_case(rng, k, flavor="mixed", pattern=None, big=None):
     pos, els, planted, decoys = [], [], [], []
     ncopies = rng.randint(1, 3) if ckind != "big" else rng.randint(1, 4)
     crossing = []
+    last_offs = []
+    planted_offs = []
 
     def try_add(points, elements, far_from_origin=False, forced_q=None, corner=None):
         for attempt in range(60):
@@ -177,6 +179,7 @@ def make_case(rng, k, flavor="mixed", pattern=None, big=None):
             if cw is None:
                 continue
             if all(min_image_dist(cell, inv, x, y) > sep for x in pos for y in cw):
+                last_offs[:] = [tuple(int(v) for v in np.round((cand[i] - cw[i]) @ inv)) for i in range(len(cw))]
                 return cw, nimg, pose, q
         return None
 
@@ -199,6 +202,7 @@ def make_case(rng, k, flavor="mixed", pattern=None, big=None):
         pos += list(cw)
         els += el
         planted.append(tuple(range(base, base + n)))
+        planted_offs.append(list(last_offs))
         crossing.append(nimg)
     ndec = 0
     if flavor in ("mixed", "decoys") and n > 1:
@@ -243,7 +247,7 @@ def make_case(rng, k, flavor="mixed", pattern=None, big=None):
                 hints = (a1, a2, o)
                 break
     return dict(name=name, tags=sorted(tags), els=els, pos=np.array(pos), cell=cell, pel=el, pp=pp, atol=atol, hints=hints,
-                planted=planted if distract == 0 else None, decoys=decoys, distractors=distract, cellkind=ckind,
+                planted=planted if distract == 0 else None, planted_offs=planted_offs, decoys=decoys, distractors=distract, cellkind=ckind,
                 crossing=crossing, k=k)
 
 
@@ -325,7 +329,7 @@ def describe(c):
 def case_json(c):
     return {"name": c["name"], "els": list(c["els"]), "pos": [list(zv(p)) for p in c["pos"]], "cell": [list(zv(r)) for r in c["cell"]],
             "pel": list(c["pel"]), "pp": [list(zv(p)) for p in c["pp"]], "atol": [c["atol"].numerator, c["atol"].denominator],
-            "hints": c["hints"], "planted": c["planted"], "decoys": c["decoys"], "distractors": c["distractors"],
+            "hints": c["hints"], "planted": c["planted"], "planted_offs": c.get("planted_offs"), "decoys": c["decoys"], "distractors": c["distractors"],
             "cellkind": c["cellkind"], "crossing": c["crossing"], "k": c["k"], "grid": G}
 
 
@@ -333,4 +337,4 @@ def case_from_json(j):
     return dict(name=j["name"], tags=[], els=j["els"], pos=np.array(j["pos"], float) / G, cell=np.array(j["cell"], float) / G,
                 pel=j["pel"], pp=np.array(j["pp"], float) / G, atol=Fraction(j["atol"][0], j["atol"][1]),
                 hints=tuple(j["hints"]) if j["hints"] else None, planted=[tuple(g) for g in j["planted"]] if j["planted"] is not None else None,
-                decoys=j.get("decoys", []), distractors=j.get("distractors", 0), cellkind=j.get("cellkind", "?"), crossing=j.get("crossing", []), k=j.get("k", 0))
+                planted_offs=j.get("planted_offs"), decoys=j.get("decoys", []), distractors=j.get("distractors", 0), cellkind=j.get("cellkind", "?"), crossing=j.get("crossing", []), k=j.get("k", 0))
